@@ -26,6 +26,10 @@ enum Step {
     /// at once connects again under the same identity; the application is not in recv, so the socket
     /// still holds the old connection when the new one is admitted
     Rejoin(usize),
+    /// publisher p stops reading (only a few hundred more bytes are accepted) until the world is
+    /// next quiescent; calls made meanwhile wait for it or queue behind it - either way, once it
+    /// reads again it must end up knowing everything
+    StallUntilIdle(usize),
     /// let the world settle
     Quiesce,
 }
@@ -143,6 +147,19 @@ fn run_world_x(ctx: &mut Ctx, steps: Vec<Step>, npeers: usize, in_flight: bool) 
                                 o2.borrow_mut().kept.push(peer);
                             }
                         }
+                    }
+                }
+                Step::StallUntilIdle(p) => {
+                    let conn = o2.borrow().peers[*p].as_ref().map(|x| (x.conn.clone(), 1 - x.side));
+                    if let Some((c, lib_side)) = conn {
+                        c.set_auto_drain(lib_side, false);
+                        c.set_cap(lib_side, 300);
+                        rt::count("fault_stall");
+                        rt::task::spawn_local("resumer", async move {
+                            rt::task::idle().await;
+                            c.set_cap(lib_side, 1 << 40);
+                            c.set_auto_drain(lib_side, true);
+                        });
                     }
                 }
                 Step::Quiesce => rt::task::idle().await,
@@ -321,6 +338,39 @@ fn rejoin_x(ctx: &mut Ctx, in_flight: bool) {
     run_world_x(ctx, steps, n, in_flight);
 }
 
+/// one publisher pauses reading in the middle of a history and resumes at the next quiescent point
+fn paused_publisher(ctx: &mut Ctx) {
+    world::swarm(ctx, SwarmOpts::default());
+    let (base, n) = draw_history(ctx, false, false);
+    let mut steps = Vec::new();
+    let mut joined: Vec<usize> = Vec::new();
+    let mut done = false;
+    for st in base {
+        match &st {
+            Step::JoinByAccept(p) | Step::JoinByConnect(p) => joined.push(*p),
+            _ => {}
+        }
+        let is_call = matches!(st, Step::Subscribe(_) | Step::Unsubscribe(_));
+        if is_call && !done && !joined.is_empty() && ctx.plan(3) == 0 {
+            steps.push(Step::Quiesce);
+            steps.push(Step::StallUntilIdle(joined[ctx.plan(joined.len() as u64) as usize]));
+            done = true;
+        }
+        steps.push(st);
+    }
+    if !done {
+        if let Some(p) = joined.first() {
+            steps.push(Step::Quiesce);
+            steps.push(Step::StallUntilIdle(*p));
+            for t in [3usize, 1, 2, 0] {
+                steps.push(Step::Subscribe(t));
+            }
+            steps.push(Step::Unsubscribe(1));
+        }
+    }
+    run_world(ctx, steps, n);
+}
+
 fn clean(ctx: &mut Ctx) {
     world::swarm(ctx, SwarmOpts::default());
     let (steps, n) = draw_history(ctx, false, false);
@@ -372,6 +422,7 @@ pub fn def() -> PropDef {
             Stratum { name: "clean", quick: 120_000, thorough: (1_500_000) * 5, exhaustive: (false, false), run: clean, what: "no topic subscribed twice, no failures: every publisher's view equals the socket's set" },
             Stratum { name: "with_duplicates", quick: 50_000, thorough: (500_000) * 5, exhaustive: (false, false), run: with_duplicates, what: "duplicate subscribes allowed: publishers must agree" },
             Stratum { name: "one_peer_fails", quick: 80_000, thorough: (1_000_000) * 5, exhaustive: (false, false), run: one_peer_fails, what: "one publisher's connection fails; the others must still be updated" },
+            Stratum { name: "paused_publisher", quick: 50_000, thorough: 2_000_000, exhaustive: (false, false), run: paused_publisher, what: "one publisher stops reading in the middle of a history and resumes at the next quiescent point: it ends up knowing everything" },
             Stratum { name: "rejoin", quick: 60_000, thorough: 2_500_000, exhaustive: (false, false), run: rejoin, what: "a publisher leaves and comes back under its announced identity in the middle of a history (the socket still holds the old connection): the live connection is told every later change" },
             Stratum { name: "rejoin_in_flight", quick: 12_000, thorough: 300_000, exhaustive: (false, false), run: rejoin_in_flight, what: "the same with the rejoin possibly overlapping the first connection's handshake (open finding 11.5 in its SUB form; one clause)" },
             Stratum { name: "join_points", quick: 60_000, thorough: (500_000) * 5, exhaustive: (false, false), run: join_points, what: "accept-join enumerated at every position among four calls" },
